@@ -942,3 +942,820 @@ Proof.
   all: try (destruct (writing c); reflexivity).
   all: symmetry; apply filter_id; intros x Hx; apply s_evs_in in Hx; subst x; reflexivity.
 Qed.
+
+(* ---- life cycle counters and events -------------------------------------------------- *)
+Definition is_up (ev : event) : bool := match ev with EvUp => true | _ => false end.
+Definition is_down (ev : event) : bool := match ev with EvDown => true | _ => false end.
+Definition count (f : event -> bool) (e : list event) : nat := length (filter f e).
+
+Lemma s_evs_count c k f : f EvErrorLogged = false -> count f (s_evs c k) = 0.
+Proof.
+  intros Hf. unfold count, s_evs. destruct (s_direct c); [|reflexivity].
+  destruct (effective c k) as [| |[]]; cbn; rewrite ?Hf; reflexivity.
+Qed.
+
+Lemma step_updown c o c' e : step c o = Ok (c', e) ->
+  ups c' = ups c + count is_up e /\ downs c' = downs c + count is_down e.
+Proof.
+  intros H. step_cases H; rewrite ?s_evs_count by reflexivity;
+    try (destruct (h_fin c k)); try (destruct (writing c)); cbn; lia.
+Qed.
+
+Lemma step_not_connecting c o c' e : step c o = Ok (c', e) -> st c <> Connecting -> st c' <> Connecting.
+Proof. intros H Hc. step_cases H; auto; discriminate. Qed.
+
+Lemma step_fin_event c o c' e : step c o = Ok (c', e) ->
+  (In EvFin e -> fin c' = true) /\ (fin c = false -> fin c' = true -> In EvFin e).
+Proof.
+  intros H. step_cases H; split; cbn; auto; try tauto; try congruence.
+  all: try (intros Hx; apply s_evs_in in Hx; discriminate).
+  all: try (destruct (h_fin c k); cbn; auto; try tauto; congruence).
+  all: try (destruct (writing c); cbn; intuition discriminate).
+Qed.
+
+(* ---- callbacks ----------------------------------------------------------------------- *)
+Definition is_cb (f : functor) : bool :=
+  match f with FWriteComplete | FHighWater _ => true | _ => false end.
+Definition cbs (l : list functor) : list functor := filter is_cb l.
+(* the queue a step starts from: RunOne first removes the functor it runs *)
+Definition base (c : conn) (o : op) : list functor :=
+  match o with RunOne _ => tl (pending c) | _ => pending c end.
+
+Lemma cbs_app l1 l2 : cbs (l1 ++ l2) = cbs l1 ++ cbs l2.
+Proof. apply filter_app. Qed.
+
+Ltac rw_in Hs :=
+  repeat match goal with
+  | H : ?b = true |- _ =>
+      lazymatch b with true => fail | false => fail | _ => idtac end;
+      match type of Hs with context [b] => rewrite H in Hs end
+  | H : ?b = false |- _ =>
+      lazymatch b with true => fail | false => fail | _ => idtac end;
+      match type of Hs with context [b] => rewrite H in Hs end
+  | H : pending ?c = _ |- _ => match type of Hs with context [pending c] => rewrite H in Hs end
+  end.
+
+Lemma step_cbs_frame c o c' e : step c o = Ok (c', e) ->
+  send_of c o = None -> (forall k, o <> EvWritable k) -> cbs (pending c') = cbs (base c o).
+Proof.
+  intros H Hs Hw. unfold send_of in Hs. unfold base.
+  step_cases H; rw_in Hs; try discriminate Hs; rw_conds; cbn [tl]; rewrite ?cbs_app; cbn [cbs filter is_cb];
+    rewrite ?app_nil_r; try reflexivity.
+  all: try (exfalso; eapply Hw; reflexivity).
+  all: st_norm; congruence.
+Qed.
+
+Definition cb_of (ev : event) : option functor :=
+  match ev with EvWC => Some FWriteComplete | EvHWM n => Some (FHighWater n) | _ => None end.
+
+Lemma step_cb_events c o c' e ev f : step c o = Ok (c', e) -> In ev e -> cb_of ev = Some f ->
+  exists k rest, o = RunOne k /\ pending c = f :: rest /\ c' = set_pending c rest /\ e = [ev].
+Proof.
+  intros H Hin Hcb. step_cases H.
+  all: try (apply s_evs_in in Hin; subst ev; discriminate).
+  all: try (destruct (h_fin c k)); try (destruct (writing c)).
+  all: cbn in Hin; repeat (destruct Hin as [Hin|Hin]; [subst ev; try discriminate|]); try contradiction.
+  all: injection Hcb as <-; eexists _, _; repeat split; reflexivity.
+Qed.
+
+Lemma runone_wc c k rest : pending c = FWriteComplete :: rest ->
+  step c (RunOne k) = Ok (set_pending c rest, [EvWC]).
+Proof. intros Hp. unfold step. cbn [user_op andb]. rewrite Hp. reflexivity. Qed.
+
+Lemma runone_hwm c k n rest : pending c = FHighWater n :: rest ->
+  step c (RunOne k) = Ok (set_pending c rest, [EvHWM n]).
+Proof. intros Hp. unfold step. cbn [user_op andb]. rewrite Hp. reflexivity. Qed.
+
+(* ---- the unsynchronised state test of a foreign send --------------------------------- *)
+Lemma step_lookup c o c' e t : step c o = Ok (c', e) -> o <> FSendCheck t ->
+  lookup t (chk c) = false -> lookup t (chk c') = false.
+Proof.
+  intros H Ho Hl. step_cases H; auto.
+  - cbn [lookup]. destruct (t =? t0) eqn:E; [|exact Hl]. apply Nat.eqb_eq in E. subst. congruence.
+  - cbn [lookup]. destruct (t =? t0); auto.
+Qed.
+
+Lemma run_lookup ops : forall c c' e t, run c ops = Ok (c', e) -> ~ In (FSendCheck t) ops ->
+  lookup t (chk c) = false -> lookup t (chk c') = false.
+Proof.
+  induction ops as [|o ops IH]; intros c c' e t H Hn Hl.
+  - cbn in H. injection H as <- _. exact Hl.
+  - apply run_cons in H as (c1 & e1 & e2 & H1 & H2 & _).
+    apply (IH c1 c' e2 t H2); [intros Hx; apply Hn; right; exact Hx|].
+    apply (step_lookup c o c1 e1 t H1); [intros ->; apply Hn; left; reflexivity|exact Hl].
+Qed.
+
+Lemma run_not_connecting ops : forall c c' e, run c ops = Ok (c', e) -> st c <> Connecting -> st c' <> Connecting.
+Proof.
+  induction ops as [|o ops IH]; intros c c' e H Hc.
+  - cbn in H. injection H as <- _. exact Hc.
+  - apply run_cons in H as (c1 & e1 & e2 & H1 & H2 & _).
+    apply (IH c1 c' e2 H2). exact (step_not_connecting c o c1 e1 H1 Hc).
+Qed.
+
+(* ---- C13: what sendInLoop and handleWrite queue --------------------------------------- *)
+Lemma s_wc_iff c d k : s_wc c d k = true <->
+  has_wc c = true /\ outb c = [] /\ writing c = false /\
+  taken (effective c k) (length d) = Some (length d).
+Proof.
+  unfold s_wc, s_ok, s_rem, s_nwrote. split.
+  - intros H. apply andb_prop in H as [H Hwc]. apply andb_prop in H as [Hok Hr].
+    destruct (s_direct c) eqn:Ed; [|discriminate]. destruct (s_direct_true c Ed) as [Hw Ho].
+    apply Nat.eqb_eq in Hr.
+    destruct (effective c k) as [n| |er]; try discriminate; cbn [taken] in *; repeat split; auto.
+    f_equal. lia.
+  - intros (Hwc & Ho & Hw & Ht).
+    assert (Ed : s_direct c = true) by (unfold s_direct; rewrite Hw, Ho; reflexivity).
+    rewrite Ed, Hwc. destruct (effective c k) as [n| |er]; cbn [taken] in *; try discriminate.
+    + injection Ht as Ht. rewrite Ht, Nat.sub_diag. reflexivity.
+    + rewrite Nat.sub_diag. reflexivity.
+Qed.
+
+Lemma s_hw_iff c d k : s_hw c d k = true <->
+  has_hwm c = true /\
+  (N.of_nat (length (outb c)) < hwm c)%N /\
+  (hwm c <= N.of_nat (length (if s_queue c d k then outb c ++ skipn (s_nwrote c d k) d else outb c)))%N.
+Proof.
+  unfold s_hw. split.
+  - intros H. apply andb_prop in H as [H Hh]. apply andb_prop in H as [H Hlt].
+    apply andb_prop in H as [Hq Hle]. apply N.ltb_lt in Hlt. apply N.leb_le in Hle.
+    rewrite Hq. destruct (s_queue_len c d k Hq) as [-> _]. auto.
+  - intros (Hh & Hlt & Hle). destruct (s_queue c d k) eqn:Hq; [|lia].
+    destruct (s_queue_len c d k Hq) as [Hl _]. rewrite Hl in Hle.
+    rewrite Hh. apply N.ltb_lt in Hlt. apply N.leb_le in Hle. rewrite Hlt, Hle. reflexivity.
+Qed.
+
+Lemma s_wc_hw_excl c d k : s_wc c d k = true -> s_hw c d k = true -> False.
+Proof.
+  unfold s_wc, s_hw, s_queue. intros H1 H2.
+  apply andb_prop in H1 as [H1 _]. apply andb_prop in H1 as [_ H1]. apply Nat.eqb_eq in H1.
+  apply andb_prop in H2 as [H2 _]. apply andb_prop in H2 as [H2 _]. apply andb_prop in H2 as [H2 _].
+  apply andb_prop in H2 as [_ H2]. apply Nat.ltb_lt in H2. lia.
+Qed.
+
+Lemma step_send c o c' e d k p : step c o = Ok (c', e) -> send_of c o = Some (d, k, p) ->
+  pending c' = p ++ s_q c d k /\
+  outb c' = (if s_queue c d k then outb c ++ skipn (s_nwrote c d k) d else outb c) /\
+  wire c' = wire c ++ firstn (s_nwrote c d k) d /\ st c' = st c /\ fin c' = fin c.
+Proof.
+  intros H Hs. unfold send_of in Hs.
+  step_cases H; rw_in Hs; try discriminate Hs; injection Hs as <- <- <-; auto.
+  st_norm. congruence.
+Qed.
+
+Lemma step_send_writing c o c' e d k p : step c o = Ok (c', e) -> send_of c o = Some (d, k, p) ->
+  writing c' = (if s_queue c d k then true else writing c).
+Proof.
+  intros H Hs. unfold send_of in Hs.
+  step_cases H; rw_in Hs; try discriminate Hs; injection Hs as <- <- <-; auto.
+  st_norm. congruence.
+Qed.
+
+Lemma app_tail_inj {A} (p : list A) x y : p ++ x = p ++ y -> x = y.
+Proof. apply app_inv_head. Qed.
+
+(* the exact statement used by Properties_C13 *)
+Lemma send_queues c o c' e d k p : step c o = Ok (c', e) -> send_of c o = Some (d, k, p) ->
+  (pending c' = p \/ pending c' = p ++ [FWriteComplete] \/ exists n, pending c' = p ++ [FHighWater n]) /\
+  (pending c' = p ++ [FWriteComplete] <->
+     has_wc c = true /\ outb c = [] /\ writing c = false /\
+     taken (effective c k) (length d) = Some (length d)) /\
+  (forall n, pending c' = p ++ [FHighWater n] <->
+     has_hwm c = true /\ (N.of_nat (length (outb c)) < hwm c <= N.of_nat (length (outb c')))%N /\
+     n = length (outb c')).
+Proof.
+  intros H Hs. destruct (step_send c o c' e d k p H Hs) as (Hp & Ho & _).
+  rewrite Hp, Ho. unfold s_q.
+  pose proof (s_wc_iff c d k) as Hwc. pose proof (s_hw_iff c d k) as Hhw.
+  pose proof (s_wc_hw_excl c d k) as Hex.
+  destruct (s_wc c d k) eqn:Ewc; destruct (s_hw c d k) eqn:Ehw; cbn [app].
+  - exfalso. auto.
+  - split; [auto|]. split; [tauto|]. intros n. split.
+    + intros Hx. apply app_inv_head in Hx. discriminate.
+    + intros (H1 & H2 & _). assert (false = true) by (apply Hhw; tauto). discriminate.
+  - assert (Hl : length (if s_queue c d k then outb c ++ skipn (s_nwrote c d k) d else outb c)
+                 = length (outb c) + s_rem c d k).
+    { unfold s_hw in Ehw. apply andb_prop in Ehw as [Ehw _]. apply andb_prop in Ehw as [Ehw _].
+      apply andb_prop in Ehw as [Ehw _]. rewrite Ehw. apply s_queue_len, Ehw. }
+    split; [eauto|]. split.
+    + split.
+      * intros Hx. apply app_inv_head in Hx. discriminate.
+      * intros Hx. assert (false = true) by (apply Hwc; exact Hx). discriminate.
+    + intros n. rewrite Hl. split.
+      * intros Hx. apply app_inv_head in Hx. injection Hx as <-.
+        destruct (proj1 Hhw eq_refl) as (H1 & H2 & H3). rewrite Hl in H3. auto.
+      * intros (_ & _ & ->). reflexivity.
+  - rewrite app_nil_r. split; [auto|]. split.
+    + split.
+      * intros Hx. symmetry in Hx. apply app_one_neq in Hx. contradiction.
+      * intros Hx. assert (false = true) by (apply Hwc; exact Hx). discriminate.
+    + intros n. split.
+      * intros Hx. symmetry in Hx. apply app_one_neq in Hx. contradiction.
+      * intros (H1 & H2 & _). assert (false = true) by (apply Hhw; tauto). discriminate.
+Qed.
+
+Lemma drain_queues c k c' e : step c (EvWritable k) = Ok (c', e) ->
+  (pending c' = pending c \/ pending c' = pending c ++ [FWriteComplete]) /\
+  (pending c' = pending c ++ [FWriteComplete] <->
+     has_wc c = true /\ writing c = true /\ outb c <> [] /\ outb c' = []).
+Proof.
+  intros H. unfold step in H. cbn [user_op andb] in H.
+  destruct (registered c); [|discriminate]. unfold ok in H. rewrite handleWrite_nf in H.
+  destruct (h_act c k) eqn:Ea; injection H as <- <-; projs.
+  - unfold h_act in Ea. apply andb_prop in Ea as [Hw Hn]. apply Nat.ltb_lt in Hn.
+    pose proof (h_n_le c k) as Hle.
+    assert (Hne : outb c <> []) by (intros E; rewrite E in Hle; cbn in Hle; lia).
+    unfold h_empty. destruct (length (skipn (h_n c k) (outb c)) =? 0) eqn:Ee; cbn [andb].
+    + apply length_zero_iff in Ee. destruct (has_wc c); cbn [app].
+      * split; [auto|]. tauto.
+      * rewrite app_nil_r. split; [auto|]. split; [|intros (Hx & _); discriminate].
+        intros Hx. symmetry in Hx. apply app_one_neq in Hx. contradiction.
+    + apply length_zero_false in Ee. rewrite app_nil_r. split; [auto|]. split; [|tauto].
+      intros Hx. symmetry in Hx. apply app_one_neq in Hx. contradiction.
+  - split; [auto|]. split.
+    + intros Hx. symmetry in Hx. apply app_one_neq in Hx. contradiction.
+    + intros (_ & _ & H1 & H2). contradiction.
+Qed.
+
+Lemma run_hwm ops : forall c c' e, run c ops = Ok (c', e) -> hwm c' = hwm c.
+Proof.
+  induction ops as [|o ops IH]; intros c c' e H.
+  - cbn in H. injection H as <- _. reflexivity.
+  - apply run_cons in H as (c1 & e1 & e2 & H1 & H2 & _).
+    rewrite (IH c1 c' e2 H2). apply (step_const c o c1 e1 H1).
+Qed.
+
+(* ---- C01: pausing and resuming reading ------------------------------------------------ *)
+Definition pause_op (c : conn) (o : op) : bool :=
+  match o with
+  | StartRead | StopRead | XStartRead | XStopRead => true
+  | RunOne _ => match pending c with (FStartRead | FStopRead) :: _ => true | _ => false end
+  | _ => false
+  end.
+
+Lemma pause_preserves c o c' e : step c o = Ok (c', e) -> pause_op c o = true ->
+  inb c' = inb c /\ consumed c' = consumed c /\ delivered c' = delivered c /\
+  wire c' = wire c /\ outb c' = outb c /\ accepted c' = accepted c /\ st c' = st c /\
+  writing c' = writing c /\ fin c' = fin c /\ enq c' = enq c /\ ran c' = ran c /\ e = [].
+Proof.
+  intros H Hp. unfold pause_op in Hp. step_cases H; rw_in Hp; try discriminate Hp.
+  all: repeat split; reflexivity.
+Qed.
+
+(* ---- C03 ----------------------------------------------------------------------------- *)
+Definition shut_op (c : conn) (o : op) : bool :=
+  match o with
+  | Shutdown | XShutdown => true
+  | RunOne _ => match pending c with FShutdown :: _ => true | _ => false end
+  | _ => false
+  end.
+
+Lemma shutdown_read_side c o c' e : step c o = Ok (c', e) -> shut_op c o = true ->
+  rd_chan c' = rd_chan c /\ rd_flag c' = rd_flag c /\ registered c' = registered c /\
+  inb c' = inb c /\ consumed c' = consumed c /\ delivered c' = delivered c /\
+  ups c' = ups c /\ downs c' = downs c.
+Proof.
+  intros H Hp. unfold shut_op in Hp. step_cases H; rw_in Hp; try discriminate Hp.
+  all: repeat split; reflexivity.
+Qed.
+
+Lemma read_data_accepted c d : rd_chan c = true -> registered c = true -> d <> [] ->
+  exists c', step c (EvReadData d) = Ok (c', [EvMsg (length (inb c ++ d))]) /\
+    inb c' = inb c ++ d /\ delivered c' = delivered c ++ d /\ consumed c' = consumed c /\
+    st c' = st c /\ rd_chan c' = true.
+Proof.
+  intros Hr Hg Hd. unfold step. cbn [user_op andb]. rewrite Hr, Hg.
+  destruct d as [|b d]; [contradiction|]. cbn [length Nat.ltb Nat.leb andb]. unfold ok.
+  eexists. split; [reflexivity|]. projs. auto.
+Qed.
+
+Lemma fin_after_backlog c o c' e : Inv c -> step c o = Ok (c', e) ->
+  fin c = false -> fin c' = true ->
+  In EvFin e /\ (up c' -> outb c' = [] /\ writing c' = false /\ wire c' = accepted c').
+Proof.
+  intros HI H Hf Hf'. split; [apply (step_fin_event c o c' e H); assumption|].
+  intros Hup. pose proof (step_inv c o c' e HI H) as HI'.
+  destruct (i_fin c' HI' Hf') as [_ Ho]. specialize (Ho Hup).
+  split; [exact Ho|]. split; [apply inv_up_writing_false; assumption|].
+  rewrite <- (i_stream c' HI'), Ho, app_nil_r. reflexivity.
+Qed.
+
+Lemma run_after_fin ops : forall c c' e, Inv c -> run c ops = Ok (c', e) -> fin c = true ->
+  wire c' = wire c /\ accepted c' = accepted c /\ fin c' = true.
+Proof.
+  induction ops as [|o ops IH]; intros c c' e HI H Hf.
+  - cbn in H. injection H as <- _. auto.
+  - apply run_cons in H as (c1 & e1 & e2 & H1 & H2 & _).
+    destruct (step_fin_wire c o c1 e1 H1 Hf) as [Hw Hf1].
+    pose proof (step_fin_accepted c o c1 e1 HI H1 Hf) as Ha.
+    destruct (IH c1 c' e2 (step_inv c o c1 e1 HI H1) H2 Hf1) as (-> & -> & ->). auto.
+Qed.
+
+Lemma run_accepted ops : forall c c' e, run c ops = Ok (c', e) ->
+  exists s, accepted c' = accepted c ++ s.
+Proof.
+  induction ops as [|o ops IH]; intros c c' e H.
+  - cbn in H. injection H as <- _. exists []. symmetry. apply app_nil_r.
+  - apply run_cons in H as (c1 & e1 & e2 & H1 & H2 & _).
+    destruct (IH c1 c' e2 H2) as [s Hs]. rewrite Hs, (step_accepted c o c1 e1 H1), <- app_assoc. eauto.
+Qed.
+
+Lemma run_wire ops : forall c c' e, run c ops = Ok (c', e) -> exists w, wire c' = wire c ++ w.
+Proof.
+  induction ops as [|o ops IH]; intros c c' e H.
+  - cbn in H. injection H as <- _. exists []. symmetry. apply app_nil_r.
+  - apply run_cons in H as (c1 & e1 & e2 & H1 & H2 & _).
+    destruct (IH c1 c' e2 H2) as [s Hs]. destruct (step_wire c o c1 e1 H1) as [w Hw].
+    rewrite Hs, Hw, <- app_assoc. eauto.
+Qed.
+
+Definition nonfatal (k : kres) : Prop :=
+  match k with Err e => is_fatal e = false | _ => True end.
+
+Lemma send_fatal_nonfatal c k : fin c = false -> nonfatal k -> send_fatal c k = false.
+Proof.
+  unfold send_fatal, effective, nonfatal. intros -> H.
+  destruct k; rewrite ?H; apply andb_false_r.
+Qed.
+
+Lemma loop_send_accepted c d k c' e : Inv c -> step c (Send d k) = Ok (c', e) ->
+  st c = Connected -> nonfatal k -> accepted c' = accepted c ++ d.
+Proof.
+  intros HI H Hs Hk. rewrite (step_accepted _ _ _ _ H). unfold block_taken, send_of. rewrite Hs. cbn.
+  assert (Hf : fin c = false).
+  { destruct (fin c) eqn:E; [|reflexivity]. destruct (i_fin c HI E) as [Hx _]. contradiction. }
+  rewrite (send_fatal_nonfatal c k Hf Hk). reflexivity.
+Qed.
+
+Lemma foreign_send_accepted c k t d rest c' e : step c (RunOne k) = Ok (c', e) ->
+  pending c = FSend t d :: rest -> st c <> Disconnected -> fin c = false -> nonfatal k ->
+  accepted c' = accepted c ++ d /\ ran c' = ran c ++ [(t, d)].
+Proof.
+  intros H Hp Hs Hf Hk. destruct (step_enq_ran _ _ _ _ H) as [_ Hr].
+  rewrite (step_accepted _ _ _ _ H), Hr. unfold block_taken, send_of, ran_of. rewrite Hp.
+  apply cstate_eqb_false in Hs. rewrite Hs, (send_fatal_nonfatal c k Hf Hk). auto.
+Qed.
+
+Lemma foreign_send_dropped c k t d rest c' e : Inv c -> step c (RunOne k) = Ok (c', e) ->
+  pending c = FSend t d :: rest -> fin c = true \/ st c = Disconnected ->
+  accepted c' = accepted c /\ wire c' = wire c /\ outb c' = outb c /\ ran c' = ran c ++ [(t, d)].
+Proof.
+  intros HI H Hp Hc. destruct (step_enq_ran _ _ _ _ H) as [_ Hr]. rewrite Hr. unfold ran_of. rewrite Hp.
+  assert (Hcg : st c <> Connecting) by (apply inv_pending_not_connecting; [exact HI|congruence]).
+  unfold step in H. cbn [user_op andb] in H. rewrite Hp, runone_send_nf in H.
+  destruct (cstate_eqb (st c) Disconnected) eqn:Ed; injection H as <- <-; projs'; [auto|].
+  destruct Hc as [Hf|Hd]; [|apply cstate_eqb_false in Ed; contradiction].
+  apply cstate_eqb_false in Ed.
+  destruct (s_fin_inv c d k HI (up_of c Hcg Ed) Hf) as (-> & -> & -> & _).
+  cbn [firstn]. rewrite app_nil_r. auto.
+Qed.
+
+(* force close *)
+Lemma force_close_up c : up c ->
+  step c ForceClose = Ok (set_pending (set_st c Disconnecting) (pending c ++ [FForceClose]), []).
+Proof.
+  intros Hup. unfold step. cbn [user_op andb]. destruct (up_cases c Hup) as [_ ->].
+  unfold forceClose, ok. rewrite (proj2 (closable_up c) Hup). reflexivity.
+Qed.
+
+Lemma force_close_down c : st c = Disconnected -> step c ForceClose = Ok (c, []).
+Proof. intros Hs. unfold step, forceClose, closable. rewrite Hs. reflexivity. Qed.
+
+Lemma delay_fire_down c n : st c = Disconnected -> delayed c = S n ->
+  step c DelayFire = Ok (set_aux c (chk c) n, []).
+Proof.
+  intros Hs Hd. rewrite step_DelayFire, Hd. unfold forceClose, closable. rewrite Hs. reflexivity.
+Qed.
+
+Lemma delay_fire_up c n : up c -> delayed c = S n ->
+  step c DelayFire =
+  Ok (set_aux (set_pending (set_st c Disconnecting) (pending c ++ [FForceClose])) (chk c) n, []).
+Proof.
+  intros Hup Hd. rewrite step_DelayFire, Hd. unfold forceClose.
+  rewrite (proj2 (closable_up c) Hup). reflexivity.
+Qed.
+
+Lemma force_close_runs c k rest : Inv c -> pending c = FForceClose :: rest -> up c ->
+  exists c', step c (RunOne k) = Ok (c', [EvDown]) /\
+    st c' = Disconnected /\ downs c' = 1 /\ ups c' = 1 /\ writing c' = false /\ rd_chan c' = false /\
+    pending c' = rest ++ [FDestroy] /\
+    wire c' = wire c /\ outb c' = outb c /\ inb c' = inb c /\ fin c' = fin c.
+Proof.
+  intros HI Hp Hup. unfold step. cbn [user_op andb]. rewrite Hp. unfold run_functor, forceCloseInLoop.
+  assert (Hcl : closable (set_pending c rest) = true) by (apply closable_up; exact Hup).
+  rewrite Hcl. unfold ok, handleClose. eexists. split; [reflexivity|]. projs.
+  pose proof (i_updown c HI) as Hud.
+  destruct Hup as [E|E]; rewrite E in Hud; destruct Hud as [-> ->]; repeat split; reflexivity.
+Qed.
+
+Lemma force_close_late c k rest : pending c = FForceClose :: rest -> st c = Disconnected ->
+  step c (RunOne k) = Ok (set_pending c rest, []).
+Proof.
+  intros Hp Hs. unfold step. cbn [user_op andb]. rewrite Hp. unfold run_functor, forceCloseInLoop, closable.
+  cbn [set_pending st]. rewrite Hs. reflexivity.
+Qed.
+
+(* send after close *)
+Lemma send_not_connected c d k : st c = Disconnecting \/ st c = Disconnected ->
+  step c (Send d k) = Ok (c, []).
+Proof. intros [Hs|Hs]; unfold step; rewrite Hs; reflexivity. Qed.
+
+Lemma foreign_send_late c t c1 e1 ops c2 e2 d :
+  step c (FSendCheck t) = Ok (c1, e1) -> st c <> Connected ->
+  run c1 ops = Ok (c2, e2) -> ~ In (FSendCheck t) ops ->
+  step c2 (FSendEnq t d) = Ok (c2, []).
+Proof.
+  intros H1 Hs H2 Hn.
+  assert (Hc : st c <> Connecting).
+  { intros E. unfold step in H1. rewrite E in H1. discriminate. }
+  assert (Hl : lookup t (chk c1) = false).
+  { unfold step in H1. cbn [user_op andb] in H1. apply cstate_eqb_false in Hc. rewrite Hc in H1.
+    injection H1 as <- _. projs. cbn [lookup]. rewrite Nat.eqb_refl. apply cstate_eqb_false, Hs. }
+  pose proof (run_lookup ops c1 c2 e2 t H2 Hn Hl) as Hl2.
+  pose proof (run_not_connecting ops c1 c2 e2 H2 (step_not_connecting _ _ _ _ H1 Hc)) as Hc2.
+  unfold step. cbn [user_op andb]. apply cstate_eqb_false in Hc2. rewrite Hc2, Hl2. reflexivity.
+Qed.
+
+(* ======================================================================================== *)
+(* Statements used by Properties_C01                                                        *)
+(* ======================================================================================== *)
+Lemma P01_outbound_stream : forall c, reach c ->
+  wire c ++ outb c = accepted c /\
+  forall o c' e, step c o = Ok (c', e) ->
+    accepted c' = accepted c ++ block_taken c o /\ exists w, wire c' = wire c ++ w.
+Proof.
+  intros c Hr. split; [apply i_stream, reach_inv, Hr|].
+  intros o c' e H. split; [eapply step_accepted, H|eapply step_wire, H].
+Qed.
+
+Lemma P01_foreign_fifo : forall c, reach c ->
+  ran c ++ sends_of (pending c) = enq c /\
+  (forall t, exists later, filter (fun x => fst x =? t) (enq c)
+                           = filter (fun x => fst x =? t) (ran c) ++ later) /\
+  forall o c' e, step c o = Ok (c', e) ->
+    enq c' = enq c ++ enq_of c o /\ ran c' = ran c ++ ran_of c o.
+Proof.
+  intros c Hr. pose proof (i_fifo c (reach_inv c Hr)) as Hf. split; [exact Hf|]. split.
+  - intros t. rewrite <- Hf, filter_app. eauto.
+  - intros o c' e H. eapply step_enq_ran, H.
+Qed.
+
+Lemma P01_block_contiguous : forall c o c1 e1 ops c2 e2,
+  reach c -> step c o = Ok (c1, e1) -> run c1 ops = Ok (c2, e2) ->
+  exists post, wire c2 ++ outb c2 = (wire c ++ outb c) ++ block_taken c o ++ post.
+Proof.
+  intros c o c1 e1 ops c2 e2 Hr H1 H2.
+  pose proof (reach_step c o c1 e1 Hr H1) as Hr1.
+  pose proof (run_reach ops c1 c2 e2 Hr1 H2) as Hr2.
+  rewrite (i_stream c2 (reach_inv c2 Hr2)), (i_stream c (reach_inv c Hr)).
+  destruct (run_accepted ops c1 c2 e2 H2) as [s Hs]. exists s.
+  rewrite Hs, (step_accepted c o c1 e1 H1), <- app_assoc. reflexivity.
+Qed.
+
+Lemma P01_write_interest : forall c, reach c -> up c -> (writing c = true <-> outb c <> []).
+Proof.
+  intros c Hr Hup. rewrite (i_interest c (reach_inv c Hr) Hup).
+  rewrite negb_true_iff. apply length_zero_false.
+Qed.
+
+Lemma P01_inbound_stream : forall c, reach c ->
+  consumed c ++ inb c = delivered c /\
+  forall o c' e, step c o = Ok (c', e) ->
+    delivered c' = delivered c ++ (match o with EvReadData d => d | _ => [] end) /\
+    consumed c' = consumed c ++ (match o with Retrieve n => firstn n (inb c) | _ => [] end) /\
+    inb c' = (match o with
+              | EvReadData d => inb c ++ d
+              | Retrieve n => skipn n (inb c)
+              | _ => inb c
+              end) /\
+    (match o with
+     | EvReadData d => e = [EvMsg (length (inb c'))]
+     | _ => forall n, ~ In (EvMsg n) e
+     end).
+Proof.
+  intros c Hr. split; [apply i_inbound, reach_inv, Hr|].
+  intros o c' e H. destruct (step_inbound c o c' e H) as (H1 & H2 & H3 & H4).
+  split; [exact H1|]. split; [exact H2|]. split; [exact H3|].
+  destruct o; try exact H4;
+    (intros m Hn; rewrite H4 in Hn; apply filter_In in Hn as [_ Hn]; discriminate).
+Qed.
+
+Definition f6_ops (d : list byte) : list op :=
+  [Establish; FSendCheck 1; FSendEnq 1 d; Shutdown; RunOne AcceptAll].
+
+Lemma P01_f6_witness :
+  exists c e, run (init 1024%N true true) (f6_ops [x61; x62; x63]) = Ok (c, e) /\
+    enq c = [(1, [x61; x62; x63])] /\ ran c = [(1, [x61; x62; x63])] /\
+    wire c = [] /\ outb c = [] /\ accepted c = [] /\ fin c = true /\ st c = Disconnecting /\
+    e = [EvUp; EvFin; EvErrorLogged].
+Proof. vm_compute. eexists _, _. repeat split. Qed.
+
+(* the property text read naively: a block whose send() passed the state test while the
+   connection was Connected and whose functor has run is in the outbound stream *)
+Lemma P01_accepted_delivered_refuted :
+  ~ (forall c, reach c -> forall t d, In (t, d) (enq c) -> In (t, d) (ran c) ->
+       exists pre post, wire c ++ outb c = pre ++ d ++ post).
+Proof.
+  intros Hall. destruct P01_f6_witness as (c & e & Hrun & He & Hr & Hw & Ho & _).
+  assert (Hreach : reach c) by (eapply run_reach; [apply reach_init|exact Hrun]).
+  destruct (Hall c Hreach 1 [x61; x62; x63]) as (pre & post & Heq).
+  - rewrite He. left. reflexivity.
+  - rewrite Hr. left. reflexivity.
+  - rewrite Hw, Ho in Heq. destruct pre; discriminate.
+Qed.
+
+Lemma P01_accepted_delivered_partial : forall c, reach c ->
+  (forall d k c' e, step c (Send d k) = Ok (c', e) -> st c = Connected -> nonfatal k ->
+     accepted c' = accepted c ++ d) /\
+  (forall k t d rest c' e, step c (RunOne k) = Ok (c', e) -> pending c = FSend t d :: rest ->
+     st c <> Disconnected -> fin c = false -> nonfatal k ->
+     accepted c' = accepted c ++ d /\ ran c' = ran c ++ [(t, d)]) /\
+  (forall k t d rest c' e, step c (RunOne k) = Ok (c', e) -> pending c = FSend t d :: rest ->
+     fin c = true \/ st c = Disconnected ->
+     accepted c' = accepted c /\ wire c' = wire c /\ outb c' = outb c /\ ran c' = ran c ++ [(t, d)]).
+Proof.
+  intros c Hr. pose proof (reach_inv c Hr) as HI. split; [|split].
+  - intros d k c' e H Hs Hk. eapply loop_send_accepted; eassumption.
+  - intros k t d rest c' e H Hp Hs Hf Hk. eapply foreign_send_accepted; eassumption.
+  - intros k t d rest c' e H Hp Hc. eapply foreign_send_dropped; eassumption.
+Qed.
+
+(* ======================================================================================== *)
+(* Statements used by Properties_C03                                                        *)
+(* ======================================================================================== *)
+Lemma fin_set_by c o c' e : step c o = Ok (c', e) -> fin c = false -> fin c' = true ->
+  shut_op c o = true \/ exists k, o = EvWritable k.
+Proof.
+  intros H Hf Hf'. unfold shut_op. step_cases H; rw_conds; eauto; congruence.
+Qed.
+
+Lemma P03_fin_after_backlog : forall c o c' e, reach c -> step c o = Ok (c', e) ->
+  fin c = false -> fin c' = true ->
+  In EvFin e /\
+  (shut_op c o = true \/ exists k, o = EvWritable k) /\
+  (st c' = Connected \/ st c' = Disconnecting ->
+   outb c' = [] /\ writing c' = false /\ wire c' = accepted c').
+Proof.
+  intros c o c' e Hr H Hf Hf'.
+  destruct (fin_after_backlog c o c' e (reach_inv c Hr) H Hf Hf') as [H1 H2].
+  split; [exact H1|]. split; [eapply fin_set_by; eassumption|exact H2].
+Qed.
+
+Lemma P03_no_write_after_fin : forall c, reach c -> fin c = true ->
+  st c <> Connected /\
+  (forall o c' e, step c o = Ok (c', e) ->
+     wire c' = wire c /\ accepted c' = accepted c /\ fin c' = true) /\
+  (forall ops c' e, run c ops = Ok (c', e) ->
+     wire c' = wire c /\ accepted c' = accepted c /\ fin c' = true).
+Proof.
+  intros c Hr Hf. pose proof (reach_inv c Hr) as HI. split; [apply (i_fin c HI Hf)|]. split.
+  - intros o c' e H. destruct (step_fin_wire c o c' e H Hf) as [H1 H2].
+    split; [exact H1|]. split; [eapply step_fin_accepted; eassumption|exact H2].
+  - intros ops c' e H. eapply run_after_fin; eassumption.
+Qed.
+
+Lemma peer_close_down c : Inv c -> up c -> rd_chan c = true ->
+  exists c', step c EvReadEOF = Ok (c', [EvDown]) /\ st c' = Disconnected /\ downs c' = 1 /\ ups c' = 1.
+Proof.
+  intros HI Hup Hr. unfold step. cbn [user_op andb]. rewrite Hr, (i_reg c HI Hup). cbn [andb].
+  unfold handleCloseChecked. rewrite (proj2 (closable_up c) Hup). unfold handleClose.
+  eexists. split; [reflexivity|]. projs.
+  pose proof (i_updown c HI) as Hud.
+  destruct Hup as [E|E]; rewrite E in Hud; destruct Hud as [-> ->]; repeat split; reflexivity.
+Qed.
+
+Lemma P03_keeps_receiving : forall c, reach c ->
+  (forall o c' e, step c o = Ok (c', e) -> shut_op c o = true ->
+     rd_chan c' = rd_chan c /\ rd_flag c' = rd_flag c /\ registered c' = registered c /\
+     inb c' = inb c /\ consumed c' = consumed c /\ delivered c' = delivered c /\
+     ups c' = ups c /\ downs c' = downs c) /\
+  (forall d, st c = Disconnecting -> rd_chan c = true -> d <> [] ->
+     exists c', step c (EvReadData d) = Ok (c', [EvMsg (length (inb c ++ d))]) /\
+       inb c' = inb c ++ d /\ delivered c' = delivered c ++ d /\ consumed c' = consumed c /\
+       st c' = Disconnecting /\ rd_chan c' = true) /\
+  (st c = Disconnecting -> rd_chan c = true ->
+     exists c', step c EvReadEOF = Ok (c', [EvDown]) /\ st c' = Disconnected /\ downs c' = 1 /\ ups c' = 1).
+Proof.
+  intros c Hr. pose proof (reach_inv c Hr) as HI. split; [|split].
+  - intros o c' e H Hs. eapply shutdown_read_side; eassumption.
+  - intros d Hs Hrd Hd.
+    assert (Hup : up c) by (right; exact Hs).
+    destruct (read_data_accepted c d Hrd (i_reg c HI Hup) Hd) as (c' & H1 & H2 & H3 & H4 & H5 & H6).
+    exists c'. rewrite H5. auto 10.
+  - intros Hs Hrd. apply peer_close_down; [exact HI|right; exact Hs|exact Hrd].
+Qed.
+
+Lemma count_app f e1 e2 : count f (e1 ++ e2) = count f e1 + count f e2.
+Proof. unfold count. rewrite filter_app, app_length. reflexivity. Qed.
+
+Lemma run_updown ops : forall c c' e, run c ops = Ok (c', e) ->
+  ups c' = ups c + count is_up e /\ downs c' = downs c + count is_down e.
+Proof.
+  induction ops as [|o ops IH]; intros c c' e H.
+  - cbn in H. injection H as <- <-. cbn. lia.
+  - apply run_cons in H as (c1 & e1 & e2 & H1 & H2 & ->).
+    destruct (IH c1 c' e2 H2) as [Hu Hd]. destruct (step_updown c o c1 e1 H1) as [Hu1 Hd1].
+    rewrite !count_app. lia.
+Qed.
+
+Lemma P03_up_down_counts : forall c, reach c ->
+  ups c <= 1 /\ downs c <= ups c /\
+  (ups c = 0 <-> st c = Connecting) /\ (downs c = 1 <-> st c = Disconnected) /\
+  forall o c' e, step c o = Ok (c', e) ->
+    ups c' = ups c + count is_up e /\ downs c' = downs c + count is_down e.
+Proof.
+  intros c Hr. pose proof (i_updown c (reach_inv c Hr)) as Hud.
+  split; [|split; [|split; [|split]]].
+  - destruct (st c); lia.
+  - destruct (st c); lia.
+  - destruct (st c); split; intros; try lia; try discriminate; reflexivity.
+  - destruct (st c); split; intros; try lia; try discriminate; reflexivity.
+  - intros o c' e H. eapply step_updown, H.
+Qed.
+
+Lemma P03_down_at_most_once : forall mark wc hw ops c e,
+  run (init mark wc hw) ops = Ok (c, e) ->
+  count is_up e = ups c /\ count is_down e = downs c /\
+  count is_up e <= 1 /\ count is_down e <= count is_up e /\
+  (count is_down e = 1 <-> st c = Disconnected).
+Proof.
+  intros mark wc hw ops c e H.
+  destruct (run_updown ops _ _ _ H) as [Hu Hd]. cbn [init ups downs] in Hu, Hd.
+  assert (Hr : reach c) by (eapply run_reach; [apply reach_init|exact H]).
+  destruct (P03_up_down_counts c Hr) as (H1 & H2 & _ & H4 & _).
+  cbn in Hu, Hd. rewrite <- Hu, <- Hd. auto.
+Qed.
+
+Lemma force_close_stays c o c' e : step c o = Ok (c', e) -> In FForceClose (pending c) ->
+  In FForceClose (pending c') \/ exists k rest, o = RunOne k /\ pending c = FForceClose :: rest.
+Proof.
+  intros H Hin. step_cases H; auto.
+  all: try (left; apply in_or_app; left; exact Hin).
+  all: try contradiction.
+  all: try (destruct Hin as [Hin|Hin]; [discriminate|]; left;
+            try (apply in_or_app; left); exact Hin).
+  all: eauto.
+Qed.
+
+Lemma P03_force_close_once : forall c, reach c -> st c = Connected \/ st c = Disconnecting ->
+  step c ForceClose = Ok (set_pending (set_st c Disconnecting) (pending c ++ [FForceClose]), []) /\
+  (forall n, delayed c = S n ->
+     step c DelayFire =
+     Ok (set_aux (set_pending (set_st c Disconnecting) (pending c ++ [FForceClose])) (chk c) n, [])) /\
+  (forall k rest, pending c = FForceClose :: rest ->
+     exists c', step c (RunOne k) = Ok (c', [EvDown]) /\
+       st c' = Disconnected /\ downs c' = 1 /\ ups c' = 1 /\ writing c' = false /\ rd_chan c' = false /\
+       pending c' = rest ++ [FDestroy] /\
+       wire c' = wire c /\ outb c' = outb c /\ inb c' = inb c /\ fin c' = fin c).
+Proof.
+  intros c Hr Hup. split; [apply force_close_up, Hup|]. split.
+  - intros n Hd. apply delay_fire_up; assumption.
+  - intros k rest Hp. apply force_close_runs; [apply reach_inv, Hr|exact Hp|exact Hup].
+Qed.
+
+Lemma P03_force_close_pending : forall c o c' e, step c o = Ok (c', e) ->
+  In FForceClose (pending c) ->
+  In FForceClose (pending c') \/ exists k rest, o = RunOne k /\ pending c = FForceClose :: rest.
+Proof. exact force_close_stays. Qed.
+
+Lemma P03_force_close_late : forall c k rest, pending c = FForceClose :: rest -> st c = Disconnected ->
+  step c (RunOne k) = Ok (set_pending c rest, []).
+Proof. exact force_close_late. Qed.
+
+Lemma P03_force_close_noop_when_down : forall c, st c = Disconnected ->
+  step c ForceClose = Ok (c, []) /\
+  step c ForceCloseDelay = Ok (c, []) /\
+  forall n, delayed c = S n -> step c DelayFire = Ok (set_aux c (chk c) n, []).
+Proof.
+  intros c Hs. split; [apply force_close_down, Hs|]. split.
+  - unfold step, closable. rewrite Hs. reflexivity.
+  - intros n Hd. apply delay_fire_down; assumption.
+Qed.
+
+Lemma P03_send_after_close_discarded :
+  (forall c d k, st c = Disconnecting \/ st c = Disconnected -> step c (Send d k) = Ok (c, [])) /\
+  (forall c t c1 e1 ops c2 e2 d,
+     step c (FSendCheck t) = Ok (c1, e1) -> st c <> Connected ->
+     run c1 ops = Ok (c2, e2) -> ~ In (FSendCheck t) ops ->
+     step c2 (FSendEnq t d) = Ok (c2, [])).
+Proof. split; [exact send_not_connected|exact foreign_send_late]. Qed.
+
+(* C03's first sentence read naively: at the half-close every block that a send() which
+   returned before took (it is in [enq]: state test passed, functor queued) is on the wire *)
+Lemma P03_flush_all_accepted_refuted :
+  ~ (forall c o c' e, reach c -> step c o = Ok (c', e) -> fin c = false -> fin c' = true ->
+       forall t d, In (t, d) (enq c') -> exists pre post, wire c' = pre ++ d ++ post).
+Proof.
+  intros Hall.
+  destruct (run (init 1024%N true true) [Establish; FSendCheck 1; FSendEnq 1 [x61; x62; x63]])
+    as [[c e]| |] eqn:E; try (vm_compute in E; discriminate).
+  assert (Hr : reach c) by (eapply run_reach; [apply reach_init|exact E]).
+  vm_compute in E. injection E as <- _.
+  match type of Hr with reach ?c0 => set (c := c0) in * end.
+  destruct (step c Shutdown) as [[c' e']| |] eqn:E'; try (vm_compute in E'; discriminate).
+  pose proof (Hall c Shutdown c' e' Hr E') as Hx.
+  vm_compute in E'. injection E' as <- _.
+  destruct (Hx eq_refl eq_refl 1 [x61; x62; x63]) as (pre & post & Heq).
+  - left. reflexivity.
+  - cbn in Heq. destruct pre; discriminate.
+Qed.
+
+Lemma P03_flush_partial : forall c o c' e, reach c -> step c o = Ok (c', e) ->
+  fin c = false -> fin c' = true -> st c' = Connected \/ st c' = Disconnecting ->
+  wire c' = accepted c' /\ outb c' = [] /\
+  (forall ops c2 e2, run c' ops = Ok (c2, e2) ->
+     wire c2 = wire c' /\ accepted c2 = accepted c' /\ fin c2 = true).
+Proof.
+  intros c o c' e Hr H Hf Hf' Hup.
+  pose proof (reach_inv c Hr) as HI.
+  destruct (fin_after_backlog c o c' e HI H Hf Hf') as [_ Hx]. destruct (Hx Hup) as (Ho & _ & Hw).
+  split; [exact Hw|]. split; [exact Ho|].
+  intros ops c2 e2 H2. eapply run_after_fin; [eapply step_inv; eassumption|exact H2|exact Hf'].
+Qed.
+
+(* ======================================================================================== *)
+(* Statements used by Properties_C13                                                        *)
+(* ======================================================================================== *)
+Lemma send_wc_emptied c o c' e d k p : step c o = Ok (c', e) -> send_of c o = Some (d, k, p) ->
+  pending c' = p ++ [FWriteComplete] -> outb c' = [] /\ wire c' = wire c ++ d.
+Proof.
+  intros H Hs Hp. destruct (send_queues c o c' e d k p H Hs) as (_ & Hwc & _).
+  destruct (proj1 Hwc Hp) as (Hh & Ho & Hw & Ht).
+  destruct (step_send c o c' e d k p H Hs) as (_ & Ho' & Hw' & _).
+  assert (Hwcb : s_wc c d k = true) by (apply s_wc_iff; auto).
+  unfold s_wc in Hwcb. apply andb_prop in Hwcb as [Hx _]. apply andb_prop in Hx as [_ Hr].
+  apply Nat.eqb_eq in Hr.
+  assert (Hq : s_queue c d k = false).
+  { unfold s_queue. rewrite Hr. apply andb_false_r. }
+  rewrite Hq in Ho'. split; [congruence|].
+  rewrite Hw'. f_equal. apply firstn_all2. unfold s_rem in Hr. lia.
+Qed.
+
+Lemma P13_wc_iff_emptied : forall c o c' e, step c o = Ok (c', e) ->
+  (forall d k p, send_of c o = Some (d, k, p) ->
+     (pending c' = p \/ pending c' = p ++ [FWriteComplete] \/
+      exists n, pending c' = p ++ [FHighWater n]) /\
+     (pending c' = p ++ [FWriteComplete] <->
+        has_wc c = true /\ outb c = [] /\ writing c = false /\
+        taken (effective c k) (length d) = Some (length d)) /\
+     (pending c' = p ++ [FWriteComplete] -> outb c' = [] /\ wire c' = wire c ++ d)) /\
+  (forall k, o = EvWritable k ->
+     (pending c' = pending c \/ pending c' = pending c ++ [FWriteComplete]) /\
+     (pending c' = pending c ++ [FWriteComplete] <->
+        has_wc c = true /\ writing c = true /\ outb c <> [] /\ outb c' = [])).
+Proof.
+  intros c o c' e H. split.
+  - intros d k p Hs. destruct (send_queues c o c' e d k p H Hs) as (H1 & H2 & _).
+    split; [exact H1|]. split; [exact H2|]. eapply send_wc_emptied; eassumption.
+  - intros k ->. apply drain_queues with (k := k) (e := e). exact H.
+Qed.
+
+Lemma P13_hwm_iff_crossing : forall c o c' e, step c o = Ok (c', e) ->
+  (forall d k p, send_of c o = Some (d, k, p) ->
+     (forall n, pending c' = p ++ [FHighWater n] <->
+        has_hwm c = true /\
+        (N.of_nat (length (outb c)) < hwm c <= N.of_nat (length (outb c')))%N /\
+        n = length (outb c')) /\
+     (hwm c = 0%N \/ (hwm c <= N.of_nat (length (outb c)))%N ->
+        forall n, pending c' <> p ++ [FHighWater n])) /\
+  (forall k n, o = EvWritable k -> pending c' <> pending c ++ [FHighWater n]).
+Proof.
+  intros c o c' e H. split.
+  - intros d k p Hs. destruct (send_queues c o c' e d k p H Hs) as (_ & _ & H3).
+    split; [exact H3|]. intros Hz n Hp. apply H3 in Hp as (_ & Hlt & _). lia.
+  - intros k n -> Hp. destruct (drain_queues c k c' e H) as ([Hx|Hx] & _); rewrite Hx in Hp.
+    + symmetry in Hp. apply app_one_neq in Hp. exact Hp.
+    + apply app_inv_head in Hp. discriminate.
+Qed.
+
+Lemma P13_only_sends_and_drains : forall c o c' e, step c o = Ok (c', e) ->
+  send_of c o = None -> (forall k, o <> EvWritable k) ->
+  cbs (pending c') = cbs (match o with RunOne _ => tl (pending c) | _ => pending c end).
+Proof. exact step_cbs_frame. Qed.
+
+Lemma P13_on_loop_thread :
+  (forall c o c' e ev f, step c o = Ok (c', e) -> In ev e -> cb_of ev = Some f ->
+     exists k rest, o = RunOne k /\ pending c = f :: rest /\ c' = set_pending c rest /\ e = [ev]) /\
+  (forall c k rest, pending c = FWriteComplete :: rest ->
+     step c (RunOne k) = Ok (set_pending c rest, [EvWC])) /\
+  (forall c k n rest, pending c = FHighWater n :: rest ->
+     step c (RunOne k) = Ok (set_pending c rest, [EvHWM n])).
+Proof. split; [exact step_cb_events|]. split; [exact runone_wc|exact runone_hwm]. Qed.
+
+Lemma P13_no_repeat_until_below :
+  forall c1 o1 c1' e1 d1 k1 p1 n1 ops c2 e o2 c2' e2 d2 k2 p2 n2,
+  step c1 o1 = Ok (c1', e1) -> send_of c1 o1 = Some (d1, k1, p1) ->
+  pending c1' = p1 ++ [FHighWater n1] ->
+  run c1' ops = Ok (c2, e) ->
+  step c2 o2 = Ok (c2', e2) -> send_of c2 o2 = Some (d2, k2, p2) ->
+  pending c2' = p2 ++ [FHighWater n2] ->
+  (hwm c1' <= N.of_nat (length (outb c1')))%N /\ hwm c2 = hwm c1' /\
+  (N.of_nat (length (outb c2)) < hwm c2)%N.
+Proof.
+  intros c1 o1 c1' e1 d1 k1 p1 n1 ops c2 e o2 c2' e2 d2 k2 p2 n2 H1 Hs1 Hp1 Hrun H2 Hs2 Hp2.
+  destruct (send_queues _ _ _ _ _ _ _ H1 Hs1) as (_ & _ & Hq1).
+  destruct (send_queues _ _ _ _ _ _ _ H2 Hs2) as (_ & _ & Hq2).
+  apply Hq1 in Hp1 as (_ & Hc1 & _). apply Hq2 in Hp2 as (_ & Hc2 & _).
+  destruct (step_const _ _ _ _ H1) as (Hh & _).
+  pose proof (run_hwm ops _ _ _ Hrun) as Hh2. lia.
+Qed.
